@@ -275,10 +275,19 @@ pub fn gen_c09(prop: &str, tier: Tier, rng: &mut Rng, seed: u64, run: u64) -> Pl
                         (a, b)
                     }
                 };
-                plan.push("C", &[a as i64, b as i64]);
+                if rng.chance(0.1) {
+                    // ... attempted while somebody is reading one of the terminals (usually a partner
+                    // whose back-link the call has to clear)
+                    plan.push("CB", &[a as i64, b as i64, rng.below(n as u64) as i64]);
+                } else {
+                    plan.push("C", &[a as i64, b as i64]);
+                }
                 last_pair = Some((a, b));
             }
-            6..=8 => plan.push("D", &[rng.below(n as u64) as i64]),
+            6..=8 => {
+                let code = if rng.chance(0.15) { "DB" } else { "D" };
+                plan.push(code, &[rng.below(n as u64) as i64]);
+            }
             9 => {
                 let t = st.next(rng);
                 let i = rng.below(n as u64) as usize;
@@ -536,6 +545,16 @@ pub fn gen_c13(prop: &str, tier: Tier, rng: &mut Rng, seed: u64, run: u64) -> Pl
             let k = rng.below(nt as u64) as usize;
             state_op(&mut plan, rng, k, t, 1.0);
         }
+        // a coupling is taken apart (from either end) and usually not put back: commands issued from
+        // then on must stay on their side of the gap
+        if rng.chance(0.08) {
+            plan.push("D", &[rng.below(nt as u64) as i64]);
+            if rng.chance(0.6) {
+                let term = rng.below(nt as u64) as usize;
+                let t = st.newest(rng);
+                cmd_op(&mut plan, rng, term, t);
+            }
+        }
         // schedule: ordered sweep, reverse sweep, or arbitrary
         match rng.below(4) {
             0 => {
@@ -643,7 +662,18 @@ pub fn gen_c20(prop: &str, tier: Tier, rng: &mut Rng, seed: u64, run: u64) -> Pl
     // (while cut the wrapper's terminal sees only what it holds itself - usually nothing)
     let partition_p = if rng.chance(0.33) { 0.12 } else { 0.0 };
     let mut cut = false;
+    // in a quarter of the runs the inner objects talk back to their wrapper's terminal from inside
+    // the calls the wrapper makes on them
+    let feedback_p = if rng.chance(0.25) { 0.3 } else { 0.0 };
     for _ in 0..rounds {
+        if feedback_p > 0.0 && rng.chance(feedback_p) {
+            let d = if rng.chance(0.8) { 0 } else { rng.below(ndev as u64) as usize };
+            if matches!(specs[d], DevSpec::Act | DevSpec::Enc | DevSpec::Pid(..)) {
+                let t = st.next(rng);
+                let mode = *rng.pick(&[1, 1, 2, 0]);
+                plan.push("FB", &[d as i64, mode, t, fb(rng.moderate_f32()), fb(rng.moderate_f32()), fb(rng.moderate_f32())]);
+            }
+        }
         if partition_p > 0.0 && rng.chance(if cut { 0.4 } else { partition_p }) {
             if cut {
                 plan.push("C", &[wterm as i64, ranges[1].0 as i64]);
